@@ -675,6 +675,27 @@ def dict_forms_stream(ctx, res):
             if dict(a.d) != builtin:
                 res.violate("C17:dict-differs:update", "`typed.update(%s)` does not give what the built-in dict gives" % what, dict(case, form=what, typed=dict(a.d), builtin=builtin))
                 a.d = dict(builtin)
+        # update(**keywords): every keyword is an entry, whatever its name (dict.update takes its mapping positional-only)
+        for kws in ({"iterable": 3}, {"self": 4}, {"iterable": 5, "self": 6, "other": 7}, {"args": 8, "kwargs": 9}, {"key": 1, "value": 2}):
+            res.case(stable(["update-keywords", sorted(kws), required]), kind="dict-forms:update-keywords")
+            try:
+                builtin.update(**kws)
+                a.d.update(**kws)
+            except Exception as e:  # noqa
+                res.violate("C17:dict-differs:update-keywords", "`typed.update(%s)` raised %s; for the built-in dict every keyword is an entry" % (", ".join("%s=…" % k for k in kws), type(e).__name__),
+                            dict(case, keywords=sorted(kws)))
+                a.d = dict(builtin)
+                continue
+            if dict(a.d) != builtin:
+                res.violate("C17:dict-differs:update-keywords", "`typed.update(**keywords)` does not give what the built-in dict gives", dict(case, keywords=sorted(kws), typed=dict(a.d), builtin=builtin))
+                a.d = dict(builtin)
+        try:
+            a.d.update({"p": 1}, {"q": 2})
+            res.violate("C17:dict-differs:update-keywords", "`typed.update(m1, m2)` was accepted; the built-in takes at most one positional argument", case)
+        except TypeError:
+            pass
+        except Exception as e:  # noqa
+            res.violate("C17:dict-differs:update-keywords", "`typed.update(m1, m2)` raised %s, the built-in raises TypeError" % type(e).__name__, case)
         # setdefault(existing key): the entry that is there, untouched, whatever the (absent) default
         res.case(stable(["setdefault-present", required]), kind="dict-forms:setdefault")
         for form, call in (("setdefault(k)", lambda d: d.setdefault("x")), ("setdefault(k, None)", lambda d: d.setdefault("x", None)), ("setdefault(k, 5)", lambda d: d.setdefault("x", 5))):
